@@ -8,6 +8,8 @@ pub mod c09;
 pub mod c10;
 pub mod c11;
 pub mod c12;
+pub mod c13;
+pub mod c14;
 pub mod c16;
 pub mod lincheck;
 pub mod macro_table;
@@ -26,6 +28,8 @@ pub fn dispatch(id: &str, args: &RunArgs) -> i32 {
         "C10" => run(&c10::C10, args),
         "C11" => run(&c11::C11, args),
         "C12" => run(&c12::C12, args),
+        "C13" => run(&c13::C13, args),
+        "C14" => run(&c14::C14, args),
         "C16" => run(&c16::C16, args),
         "C03" => run(&c03::C03, args),
         "C04" => run(&c04::C04, args),
